@@ -74,6 +74,15 @@ class Sym:
     def __repr__(self):
         return f"<{self.kind}:{self.src}{' neg' if self.neg else ''}>"
 
+    @property
+    def overflow(self) -> bool:
+        """A decimal literal with more digits than a float can hold: float() of it is inf.  (All other numeric
+        symbols stand for finite values; digits cannot produce nan.)"""
+        return self.kind == "float" and ":OVERFLOW" in self.src
+
+    def as_inf(self):
+        return float("-inf") if self.neg else float("inf")
+
 
 @dataclass(frozen=True)
 class Hole:
@@ -283,7 +292,7 @@ class Interp:
             return self.eval(val, Env(m2, {}))
         if isinstance(node, tuple) and node[0] == "ext":
             _, modname, attr = node
-            return ExtVal(modname, attr)
+            return _ext(modname, attr)
         if m2 is not None and node is None:
             return ModuleVal(m2.dotted)
         if name == "__name__":
@@ -636,7 +645,7 @@ class Interp:
 
     def st_ImportFrom(self, st, env):
         for a in st.names:
-            env.local[a.asname or a.name] = ExtVal(st.module or "", a.name)
+            env.local[a.asname or a.name] = _ext(st.module or "", a.name)
 
     # -- pattern matching --------------------------------------------------
     def match(self, pat, subj, binds, env) -> bool:
@@ -825,6 +834,9 @@ class Interp:
         if isinstance(o, (Tmpl, AList, ASet, ADict, Sym, StrBuf)):
             return BoundMethod(o, attr)
         if isinstance(o, ExtVal):
+            if o.module == "math" and not o.attr and attr in ("inf", "nan", "pi", "e", "tau"):
+                import math as _math
+                return getattr(_math, attr)
             return ExtVal(o.module, (o.attr + "." if o.attr else "") + attr)
         if isinstance(o, Builtin) and o.name in ("str", "int", "float", "list", "tuple", "dict", "set"):
             return Builtin(f"{o.name}.{attr}")
@@ -1176,6 +1188,10 @@ class Interp:
     def equal(self, a, b, site):
         if a is None or b is None:
             return a is None and b is None
+        if isinstance(a, Sym) and a.overflow and (_isnum(b) or (isinstance(b, Sym) and b.overflow)):
+            a = a.as_inf()
+        if isinstance(b, Sym) and b.overflow and _isnum(a):
+            b = b.as_inf()
         if isinstance(a, EnumVal) or isinstance(b, EnumVal):
             return a == b
         if _isnum(a) and _isnum(b):
@@ -1229,6 +1245,18 @@ class Interp:
             if isinstance(op, ast.LtE) and a.n > b:
                 return False
             return self.choose(f"length order at {site}")
+        import math as _math
+        numsym = lambda x: isinstance(x, Sym) and x.kind in ("int", "float")   # noqa: E731
+        if (numsym(a) or _isnum(a)) and (numsym(b) or _isnum(b)):
+            # the value partition of numeric symbols: overflowing decimals are +-inf, all others finite
+            if isinstance(a, Sym) and a.overflow:
+                a = a.as_inf()
+            if isinstance(b, Sym) and b.overflow:
+                b = b.as_inf()
+            if _isnum(a) and _math.isinf(a) and isinstance(b, Sym):
+                b = 0.0
+            if _isnum(b) and _math.isinf(b) and isinstance(a, Sym):
+                a = 0.0
         if _isnum(a) and _isnum(b):
             return {ast.Lt: a < b, ast.LtE: a <= b, ast.Gt: a > b, ast.GtE: a >= b}[type(op)]
         if any(isinstance(x, Sym) and x.kind in ("int", "float") for x in (a, b)) and all(
@@ -1792,6 +1820,11 @@ class Interp:
                 return Sym(name, v.src, neg=v.neg, coerced=v.coerced + ((v.kind, name, f"{name}() call", site),), uid=v.uid)
             if _isnum(v):
                 return int(v) if name == "int" else float(v)
+            if name == "float" and isinstance(v, Tmpl) and v.is_literal():
+                try:
+                    return float(v.text())
+                except ValueError:
+                    pass
             raise Unsupported(f"{name}() of {v!r} at {site}")
         if name == "print":
             return None
@@ -2035,6 +2068,13 @@ class Interp:
             return None            # emitting a log record / warning does not affect the compiled text
         if q in ("typing.cast",) and len(args) == 2:
             return args[1]
+        if q in ("math.isinf", "math.isfinite", "math.isnan") and len(args) == 1:
+            import math as _math
+            v = args[0]
+            if isinstance(v, Sym) and v.kind in ("int", "float"):
+                v = v.as_inf() if v.overflow else 0.0
+            if _isnum(v):
+                return getattr(_math, q.split(".")[1])(v)
         if q in ("copy.copy", "copy.deepcopy") and args:
             return args[0]
         if q in ("io.StringIO", "StringIO"):
@@ -2192,6 +2232,13 @@ class _MapIter:
 class ExtVal:
     module: str
     attr: str | None
+
+
+def _ext(modname, attr):
+    if modname == "math" and attr in ("inf", "nan", "pi", "e", "tau"):
+        import math as _math
+        return getattr(_math, attr)
+    return ExtVal(modname, attr)
 
 
 class Env:
